@@ -372,6 +372,7 @@ REG.contract(
         f"{ISABS('self')} or origin is None or result == wenc(self.labels, len(self.labels), canonicalize) + wenc(origin.labels, len(origin.labels), canonicalize)",
         f"{ISABS('self')} or len(result) <= 255",
     ],
+    when=lambda a: a.get("file") is None,
     props=["C01", "C15"],
     note="file=None form (used by to_digestable): the result is exactly the RFC 1035 encoding of the labels (then the origin's "
          "labels for a relative name), lower-cased iff canonicalize, never a compression pointer; NeedAbsoluteNameOrOrigin "
@@ -390,6 +391,7 @@ REG.contract(
     target="dns.name.Name.to_wire",
     params={"self": NAME, "file": T.bytesio, "compress": T.opt(T.map_of(T.int, T.int)), "origin": T.opt(NAME), "canonicalize": T.bool},
     requires=["file.tell() == len(file.getvalue())", f"compress is None or {_TABLE_OK}"],
+    modifies={"file": None, "compress": None},
     raises=[("dns.name.NeedAbsoluteNameOrOrigin", f"(not {ISABS('self')}) and (origin is None or not {_ISABS_O})"),
             ("dns.name.NameTooLong", f"(not {ISABS('self')}) and origin is not None", "may")],
     loops={
@@ -412,6 +414,7 @@ REG.contract(
     ] + _TABLE_FRAME,
     ensures_raise=[f"file.getvalue()[:{_OLDLEN}] == old_file.getvalue()"],
     heavy=True,
+    when=lambda a: a.get("file") is not None,
     props=["C01", "C03", "C08"],
     note="file/compress form: bytes are only appended; a table entry is added only with the offset at which the suffix starts "
          "in this output, inside the bytes this call wrote, and never above 0x3FFF; existing entries are never changed; a "
